@@ -299,7 +299,7 @@ Qed.
     the list (so the option cannot be "pure syntax" there). *)
 Definition kw_from : twl := {| tok := TWord (s2l "from") None (s2l "FROM"); line := 1; col := 4 |}.
 Example tc_ambiguity :
-  let d := {| d_tc := false; d_proj_tc := false; d_reserved := [s2l "FROM"] |} in
+  let d := (mk_dial false false [s2l "FROM"]) in
   let ts := [ {| tok := TWord (s2l "a") None no_keyword; line := 1; col := 1 |};
               {| tok := TP PComma; line := 1; col := 2 |}; kw_from ] in
   fst (comma_sep 5 word_elem d (init_state ts false 50)) <> fst (comma_sep 5 word_elem d (init_state ts true 50)).
